@@ -41,6 +41,11 @@ CHECKS.update({
    text="AlState.tla specifies the group transition (request to every member, polling rounds split over frames, timeout) against devices following scripted AL behaviour (accept after k polls, refuse with error indication, stall, fall back). TLC proves OkImpliesAllReportedAtCheck, BadDeviceMeansError, ErrWithinTimeout, RequestToAllMembersOnly for every script vector over three group shapes (single frame, several status frames, two groups). The same script vectors run through the real into_safe_op on the simulated segment and AlStateTrace requires the model's verdict; seeded multi-stage transitions (into_op, request_into_op, into_pre_op, into_init, up to 8 devices) are judged by the monitor clauses (state after success, error within the timeout, AL control writes to members only and in the right chain), and TxRxSummaryTrace checks the per-cycle state list and its summaries against what the devices answered, including devices that do not answer.",
    note="request_into_op is documented not to wait (only the writes are checked); fall-back cases are decided by model conformance; simdev's AL machine is the trusted device model."),
 })
+CHECKS.update({
+ "C11": dict(engine="wkc", section="6/C11",
+   text="Wkc.tla models a call as a sequence of datagram steps, each checked against an expected count or documented-unchecked, with an environment that forces a counter, makes the device skip a step or removes it from a step on; TLC proves OkImpliesServiced, ErrorFieldsExact and AbsentIsNoticed for all calls of up to 3-4 steps. On the simulated segment every public data-returning entry point (receive, receive_slice, send_receive, send_receive_slice, broadcast read, register_read/write, status, eeprom_read(_raw), sdo_read, sdo_write, group into_op, process-data cycle) is called with the fault placed at every datagram of the call (full product of modes, expected counts 0..3 and forced counts for the single-datagram entry points) and WkcTrace requires: no success while a checked datagram carried a wrong counter, the exact WorkingCounter{expected, received} for single-datagram calls, error fields that name a really offending datagram, no spurious error.",
+   note="The table of checked datagrams per entry point is read off the code (WkcTrace.Expected); WrappedWrite::send and ignore_wkc are exempt by the property text."),
+})
 NOT_BUILT = {}
 def main():
     props = [json.loads(l) for l in open(os.path.join(V, "properties.jsonl"))]
@@ -80,7 +85,7 @@ def main():
                  kind_free_text="RxTriage.tla + RxTriageMC/Trace; harness rxtriage (prepared slot states, before/after snapshots)"),
             dict(name="wirelayout", path="checks/wirelayout.py", serves_properties=["C19"],
                  kind_free_text="WireLayout.tla + WireLayoutMC/Trace; generated crate harness/wiregen"),
-            dict(name="simdev", path="harness/simdev", serves_properties=["C09", "C10"],
+            dict(name="simdev", path="harness/simdev", serves_properties=["C09", "C10", "C11"],
                  kind_free_text="simulated EtherCAT segment + vsim engines (init, alstate, wkc) driving the real MainDevice under a virtual clock; InitSeq/AlState specifications with trace validation"),
             dict(name="pduloop", path="checks/pduloop.py", serves_properties=[p for p in ["C01","C02","C03","C06"] if p in CHECKS],
                  kind_free_text="PduLoop.tla + PduLoopMC/Trace/Monitor; harness vsched + pduloop (token scheduler over OS threads, virtual embassy-time clock)"),
